@@ -180,7 +180,9 @@ def run(run: common.Run):
                                       kernel_shape=case['kernel'], proc_crs='auto', param=False, threads=case['threads'],
                                       max_block_mem=fusion.block_mem_for(hv, ph, pw, src.px, ref.px, proc_ref),
                                       # the down-sampling method of the *data* varies; complete coverage is a property of the masks
-                                      model_config=dict(mask_partial=True, upsampling=case['upsampling'], r2_inpaint_thresh=None,
+                                      model_config=dict(mask_partial=True, upsampling=case['upsampling'],
+                                                        # in-painting (gain-offset) on and off: it does not change where parameters exist
+                                                        r2_inpaint_thresh=0.25 if (case['i'] // 6) % 2 == 0 else None,
                                                         downsampling=['average', 'average', 'bilinear', 'average', 'cubic'][case['i'] % 5]),
                                       # every third case: validity carried by an internal mask band instead of a nodata value
                                       out_profile=dict(nodata=None) if case['i'] % 3 == 2 else None)
